@@ -112,6 +112,17 @@ _dispatch_verif_block_peek(dispatch_block_t db, volatile void **atomic_flags,
 	return true;
 }
 
+// the serial barrier queue and the barrier group of a dispatch I/O channel (NULL until the channel's
+// descriptor entry has been looked up), and the address of the group's state word
+DV_EXPORT void
+_dispatch_verif_io_peek(dispatch_io_t channel, dispatch_queue_t *barrier_queue,
+		dispatch_group_t *barrier_group, volatile void **group_state)
+{
+	*barrier_queue = channel->barrier_queue;
+	*barrier_group = channel->barrier_group;
+	*group_state = channel->barrier_group ? &channel->barrier_group->dg_state : NULL;
+}
+
 // addresses of the internal and external reference counts of an object
 DV_EXPORT void
 _dispatch_verif_object_ref_addrs(void *obj, volatile void **ref,
